@@ -711,3 +711,422 @@ Proof.
   - destruct (sub_chan_inv _ _ _ Hs1) as [rid [u [um [H1 H2]]]]. cbn [handle_front].
     destruct (do_unsubscribe_spec s1 sid rid u ch um H1 H2) as [_ [_ [_ [H _]]]]. rewrite H, Hch. reflexivity.
 Qed.
+
+(* ================================================================== Part E: the send task consumes what is queued *)
+
+(* s with the three fields the send task's bookkeeping of its inbox lives in replaced *)
+Definition frame (s : st) (q : list f2b) (w : list (f2b * option handle)) (u : list (handle * handle * bool)) : st :=
+  upd_unsubw (upd_queue s q w) u.
+
+Lemma frame_id s : frame s (queue s) (waiting s) (unsubw s) = s.
+Proof. destruct s; reflexivity. Qed.
+
+(* the send task is neither blocked nor ended, and writes neither block nor fail *)
+Definition ungated (s : st) : Prop :=
+  gated s = false /\ dead s = false /\ dying s = None /\ sendfail s = false /\ busy s = false.
+
+Definition flags (s : st) := (gated s, dead s, dying s, sendfail s, busy s, qcap s).
+
+Lemma ungated_flags s s' : flags s' = flags s -> ungated s -> ungated s' /\ qcap s' = qcap s.
+Proof.
+  unfold flags, ungated. intros E [H1 [H2 [H3 [H4 H5]]]]. injection E as -> -> -> -> -> ->. auto 10.
+Qed.
+
+(* handling the messages one after the other *)
+Fixpoint process (s : st) (msgs : list f2b) : st * list out :=
+  match msgs with
+  | [] => (s, [])
+  | x :: rest =>
+    let '(s1, o1) := handle_front s x in
+    let '(s2, o2) := process s1 rest in
+    (s2, o1 ++ o2)
+  end.
+
+(* unsubscribe() futures whose message is admitted to the queue are marked *)
+Definition marks (tags : list (option handle)) (u : list (handle * handle * bool)) : list (handle * handle * bool) :=
+  fold_left (fun u t => match t with Some h => mark_admitted h u | None => u end) tags u.
+
+Lemma wire_ungated s raw : gated s = false -> sendfail s = false -> wire s raw = (s, [OWire raw]).
+Proof. intros H1 H2. unfold wire. now rewrite H1, H2. Qed.
+
+Lemma wire_flags s raw : gated s = false -> sendfail s = false -> flags (fst (wire s raw)) = flags s.
+Proof. intros H1 H2. now rewrite wire_ungated. Qed.
+
+Lemma drop_sink_flags s h : flags (drop_sink s h) = flags s.
+Proof. unfold drop_sink. destruct (chan_of s h); reflexivity. Qed.
+
+Lemma gated_drop_sink s h : gated (drop_sink s h) = gated s.
+Proof. unfold drop_sink. destruct (chan_of s h); reflexivity. Qed.
+Lemma sendfail_drop_sink s h : sendfail (drop_sink s h) = sendfail s.
+Proof. unfold drop_sink. destruct (chan_of s h); reflexivity. Qed.
+Lemma flags_upd_unacked s l : flags (upd_unacked s l) = flags s. Proof. reflexivity. Qed.
+Lemma gated_upd_unacked s l : gated (upd_unacked s l) = gated s. Proof. reflexivity. Qed.
+Lemma sendfail_upd_unacked s l : sendfail (upd_unacked s l) = sendfail s. Proof. reflexivity. Qed.
+
+Lemma hf_flags s x : gated s = false -> sendfail s = false -> flags (fst (handle_front s x)) = flags s.
+Proof.
+  intros Hg Hs. destruct x; cbn [handle_front].
+  - destruct (ahas _ _ _); [reflexivity|]. now rewrite wire_flags.
+  - now rewrite wire_flags.
+  - destruct (ahas _ _ _); [reflexivity|]. now rewrite wire_flags.
+  - destruct (_ && _)%bool; [|reflexivity]. now rewrite wire_flags.
+  - destruct (ahas _ _ _); [reflexivity|]. destruct (alive s h); reflexivity.
+  - destruct (alookup _ _ _); [|reflexivity]. cbn [fst]. now rewrite drop_sink_flags.
+  - unfold do_unsubscribe. destruct (alookup _ _ _); [|reflexivity].
+    destruct (req_lookup _ _) as [[| | u ch um|]|]; try reflexivity.
+    rewrite wire_flags; rewrite ?flags_upd_unacked, ?gated_upd_unacked, ?sendfail_upd_unacked,
+      ?drop_sink_flags, ?gated_drop_sink, ?sendfail_drop_sink; try assumption. reflexivity.
+Qed.
+
+(* the send task's handler neither reads nor writes queue, waiting and unsubw *)
+Lemma wire_frame s q w u raw :
+  wire (frame s q w u) raw = (frame (fst (wire s raw)) q w u, snd (wire s raw)).
+Proof. unfold wire, frame. cbn [sendfail gated upd_unsubw upd_queue]. destr_all; reflexivity. Qed.
+
+Lemma drop_sink_frame s q w u h : drop_sink (frame s q w u) h = frame (drop_sink s h) q w u.
+Proof.
+  unfold drop_sink, chan_of, frame. cbn [chans upd_unsubw upd_queue]. destruct (alookup N.eqb h (chans s)); reflexivity.
+Qed.
+
+Lemma hf_frame s q w u x :
+  handle_front (frame s q w u) x = (frame (fst (handle_front s x)) q w u, snd (handle_front s x)).
+Proof.
+  destruct x; cbn [handle_front].
+  - change (m (frame s q w u)) with (m s). destruct (ahas _ _ _); [reflexivity|].
+    change (upd_m (frame s q w u) ?mm) with (frame (upd_m s mm) q w u). apply wire_frame.
+  - apply wire_frame.
+  - change (m (frame s q w u)) with (m s). destruct (ahas _ _ _); [reflexivity|].
+    change (upd_m (frame s q w u) ?mm) with (frame (upd_m s mm) q w u). apply wire_frame.
+  - change (m (frame s q w u)) with (m s). destruct (_ && _)%bool; [|reflexivity].
+    change (upd_m (frame s q w u) ?mm) with (frame (upd_m s mm) q w u). apply wire_frame.
+  - change (m (frame s q w u)) with (m s). destruct (ahas _ _ _); [reflexivity|].
+    change (alive (frame s q w u) h) with (alive s h). destruct (alive s h); reflexivity.
+  - change (m (frame s q w u)) with (m s). destruct (alookup _ _ _); [|reflexivity].
+    change (upd_m (frame s q w u) ?mm) with (frame (upd_m s mm) q w u). now rewrite drop_sink_frame.
+  - unfold do_unsubscribe. change (m (frame s q w u)) with (m s).
+    destruct (alookup _ _ _); [|reflexivity].
+    destruct (req_lookup _ _) as [[| | u0 ch um|]|]; try reflexivity.
+    change (upd_m (frame s q w u) ?mm) with (frame (upd_m s mm) q w u). rewrite drop_sink_frame.
+    change (upd_unacked (frame ?x q w u) ?l) with (frame (upd_unacked x l) q w u).
+    change (unacked (frame ?x q w u)) with (unacked x).
+    apply wire_frame.
+Qed.
+
+Lemma process_frame q w u : forall msgs s,
+  process (frame s q w u) msgs = (frame (fst (process s msgs)) q w u, snd (process s msgs)).
+Proof.
+  induction msgs as [|x msgs IH]; intro s; [reflexivity|].
+  cbn [process]. rewrite hf_frame. destruct (handle_front s x) as [s1 o1]. cbn [fst snd].
+  rewrite IH. destruct (process s1 msgs) as [s2 o2]. reflexivity.
+Qed.
+
+Lemma process_flags : forall msgs s, gated s = false -> sendfail s = false ->
+  flags (fst (process s msgs)) = flags s.
+Proof.
+  induction msgs as [|x msgs IH]; intros s Hg Hs; [reflexivity|].
+  cbn [process]. pose proof (hf_flags s x Hg Hs) as E. destruct (handle_front s x) as [s1 o1]. cbn [fst] in E.
+  assert (Hg1 : gated s1 = false) by (unfold flags in E; injection E as E _ _ _ _ _; congruence).
+  assert (Hs1 : sendfail s1 = false) by (unfold flags in E; injection E as _ _ _ E _ _; congruence).
+  specialize (IH s1 Hg1 Hs1). destruct (process s1 msgs) as [s2 o2]. cbn [fst] in *. congruence.
+Qed.
+
+(* admitting blocked senders: a prefix of them moves to the queue's tail, in order, until it is full *)
+Lemma admit_waiting_spec : forall n s, exists a b,
+  waiting s = a ++ b /\
+  admit_waiting n s = frame s (queue s ++ map fst a) b (marks (map snd a) (unsubw s)) /\
+  ((length (waiting s) <= n)%nat -> b = [] \/ ~ (length (queue s ++ map fst a) < qcap s)%nat).
+Proof.
+  induction n as [|n IH]; intro s.
+  - exists [], (waiting s). split; [reflexivity|]. split.
+    + cbn [admit_waiting map marks fold_left]. rewrite app_nil_r. symmetry. apply frame_id.
+    + intro H. left. destruct (waiting s); [reflexivity|simpl in H; lia].
+  - cbn [admit_waiting]. destruct (waiting s) as [|[msg tag] w] eqn:Ew.
+    + exists [], []. split; [reflexivity|]. split; [|now left].
+      cbn [map marks fold_left]. rewrite app_nil_r, <- Ew. symmetry. apply frame_id.
+    + destruct (Nat.ltb (length (queue s)) (qcap s)) eqn:Eroom.
+      * set (s' := frame s (queue s ++ [msg]) w (marks [tag] (unsubw s))).
+        assert (Es' : (match tag with
+                       | Some h => upd_unsubw (upd_queue s (queue s ++ [msg]) w)
+                                     (mark_admitted h (unsubw (upd_queue s (queue s ++ [msg]) w)))
+                       | None => upd_queue s (queue s ++ [msg]) w end) = s').
+        { destruct tag; reflexivity. }
+        rewrite Es'. destruct (IH s') as [a [b [Hw [Ha Hb]]]].
+        exists ((msg, tag) :: a), b. split; [cbn in Hw; now rewrite Hw|]. split.
+        -- rewrite Ha. unfold s'. cbn [queue waiting unsubw frame upd_unsubw upd_queue map snd fst marks fold_left].
+           rewrite <- app_assoc. reflexivity.
+        -- intro H. cbn [length] in H. destruct Hb as [Hb|Hb]; [cbn; lia|now left|right].
+           unfold s' in Hb. cbn [queue qcap frame upd_unsubw upd_queue] in Hb.
+           cbn [map fst]. now rewrite <- app_assoc in Hb.
+      * exists [], ((msg, tag) :: w). split; [reflexivity|]. split.
+        -- cbn [map marks fold_left]. rewrite app_nil_r, <- Ew. symmetry. apply frame_id.
+        -- intros _. right. cbn [map]. rewrite app_nil_r. apply Nat.ltb_ge in Eroom. lia.
+Qed.
+
+Lemma marks_app t1 t2 u : marks (t1 ++ t2) u = marks t2 (marks t1 u).
+Proof. unfold marks. apply fold_left_app. Qed.
+
+(* drain_ungated: the send task handles EVERY queued and blocked message, in order, and ends with an empty inbox *)
+Theorem drain_ungated : forall fuel s,
+  ungated s -> (0 < qcap s)%nat -> (length (pending_msgs s) < fuel)%nat ->
+  drain fuel s =
+  (frame (fst (process s (pending_msgs s))) [] [] (marks (map snd (waiting s)) (unsubw s)),
+   snd (process s (pending_msgs s))).
+Proof.
+  induction fuel as [|fuel IH]; intros s Hu Hq Hlen; [lia|].
+  cbn [drain]. destruct (admit_waiting_spec (length (waiting s)) s) as [a [b [Hw [Ha Hb]]]].
+  rewrite Ha. specialize (Hb (le_n _)).
+  destruct Hu as [Hg [Hd [Hdy [Hsf Hb']]]].
+  cbn [busy dead dying queue waiting frame upd_unsubw upd_queue]. rewrite Hb', Hd, Hdy. cbn [orb].
+  unfold pending_msgs in *. rewrite Hw, map_app, app_assoc in *.
+  destruct (queue s ++ map fst a) as [|msg q] eqn:EQ.
+  - (* nothing queued: then nothing is blocked either *)
+    destruct Hb as [->|Hb]; [|cbn in Hb; lia].
+    apply app_eq_nil in EQ as [Eq Ea]. apply map_eq_nil in Ea. subst a. cbn [map app process fst snd]. reflexivity.
+  - assert (E : upd_queue (frame s (msg :: q) b (marks (map snd a) (unsubw s))) q b
+                = frame s q b (marks (map snd a) (unsubw s))) by reflexivity.
+    rewrite E, hf_frame. cbn [app process].
+    pose proof (hf_flags s msg Hg Hsf) as Ef.
+    destruct (handle_front s msg) as [s1 o1]. cbn [fst snd] in *.
+    set (U := marks (map snd a) (unsubw s)).
+    assert (Hu1 : ungated (frame s1 q b U) /\ qcap (frame s1 q b U) = qcap s).
+    { apply (ungated_flags s); [exact Ef|]. unfold ungated; auto. }
+    destruct Hu1 as [Hu1 Hq1].
+    rewrite (IH (frame s1 q b U)); [|exact Hu1|rewrite Hq1; exact Hq|].
+    2:{ unfold pending_msgs. cbn [queue waiting frame upd_unsubw upd_queue].
+        cbn [app length] in Hlen. rewrite app_length in *. lia. }
+    unfold pending_msgs. cbn [queue waiting unsubw frame upd_unsubw upd_queue].
+    fold (frame s1 q b U). rewrite process_frame.
+    destruct (process s1 (q ++ map fst b)) as [s2 o2]. cbn [fst snd].
+    rewrite map_app, marks_app. reflexivity.
+Qed.
+
+(* ---------- settle when nothing blocks the send task ---------- *)
+Definition wires_of (o : list out) : list bytes :=
+  flat_map (fun x => match x with OWire w => [w] | _ => [] end) o.
+
+Lemma wires_of_app a b : wires_of (a ++ b) = wires_of a ++ wires_of b.
+Proof. unfold wires_of. apply flat_map_app. Qed.
+
+Lemma upd_chans_id s : upd_chans s (chans s) = s. Proof. destruct s; reflexivity. Qed.
+
+Lemma finish_fold_chans : forall (l : list (handle * handle * bool)) s, exists cs,
+  fold_left (fun s' x => match x with (_, c, _) =>
+                match chan_of s' c with Some ch => set_chan s' c (chan_drop_rx ch) | None => s' end end) l s
+  = upd_chans s cs.
+Proof.
+  induction l as [|[[w c] adm] l IH]; intro s.
+  - exists (chans s). symmetry. apply upd_chans_id.
+  - cbn [fold_left]. destruct (chan_of s c) as [ch|].
+    + destruct (IH (set_chan s c (chan_drop_rx ch))) as [cs E]. exists cs. rewrite E. reflexivity.
+    + apply IH.
+Qed.
+
+Lemma finish_unsubs_shape s : exists cs u, fst (finish_unsubs s) = upd_unsubw (upd_chans s cs) u.
+Proof.
+  unfold finish_unsubs. cbn [fst].
+  destruct (finish_fold_chans (filter (unsub_done s) (unsubw s)) s) as [cs E]. rewrite E. eauto.
+Qed.
+
+Lemma complete_wires s h r : wires_of (complete s h r) = [].
+Proof. unfold complete. destruct (alive s h); reflexivity. Qed.
+
+Lemma finish_unsubs_wires s : wires_of (snd (finish_unsubs s)) = [].
+Proof.
+  unfold finish_unsubs. cbn [snd]. induction (filter (unsub_done s) (unsubw s)) as [|[[w c] adm] l IH]; [reflexivity|].
+  cbn [flat_map]. now rewrite wires_of_app, complete_wires, IH.
+Qed.
+
+Lemma finish_unsubs_nil s : unsubw s = [] -> snd (finish_unsubs s) = [].
+Proof. intro H. unfold finish_unsubs. rewrite H. reflexivity. Qed.
+
+Theorem settle_ungated : forall s, ungated s -> (0 < qcap s)%nat ->
+  let P := process s (pending_msgs s) in
+  let D := frame (fst P) [] [] (marks (map snd (waiting s)) (unsubw s)) in
+  settle s = (fst (finish_unsubs D), snd P ++ snd (finish_unsubs D)) /\
+  ungated D /\ qcap D = qcap s.
+Proof.
+  intros s Hu Hq P D.
+  assert (Hf : flags D = flags s).
+  { destruct Hu as [Hg [_ [_ [Hsf _]]]]. exact (process_flags (pending_msgs s) s Hg Hsf). }
+  destruct (ungated_flags s D Hf Hu) as [HuD HqD]. split; [|auto].
+  unfold settle, try_kill. destruct Hu as [Hg [Hd [Hdy [Hsf Hb]]]]. rewrite Hdy.
+  rewrite drain_ungated; [|unfold ungated; auto|exact Hq|].
+  2:{ unfold pending_msgs. rewrite app_length, map_length. lia. }
+  fold P. fold D. destruct HuD as [_ [_ [HdyD _]]]. rewrite HdyD.
+  destruct (finish_unsubs D) as [s4 o4]. cbn [fst snd app]. reflexivity.
+Qed.
+
+(* every event handled while nothing blocks the send task leaves its inbox empty *)
+Theorem settle_quiescent : forall s, ungated s -> (0 < qcap s)%nat ->
+  queue (fst (settle s)) = [] /\ waiting (fst (settle s)) = [] /\ ungated (fst (settle s)) /\
+  qcap (fst (settle s)) = qcap s.
+Proof.
+  intros s Hu Hq. destruct (settle_ungated s Hu Hq) as [E [HuD HqD]]. rewrite E. cbn [fst].
+  set (D := frame _ _ _ _) in *.
+  destruct (finish_unsubs_shape D) as [cs [u ->]]. repeat split; try reflexivity; try apply HuD. exact HqD.
+Qed.
+
+(* one queued message, nobody blocked *)
+Lemma settle_one s x : ungated s -> (0 < qcap s)%nat -> queue s = [x] -> waiting s = [] ->
+  let D := frame (fst (handle_front s x)) [] [] (unsubw s) in
+  settle s = (fst (finish_unsubs D), snd (handle_front s x) ++ snd (finish_unsubs D)).
+Proof.
+  intros Hu Hq Hqu Hw D. destruct (settle_ungated s Hu Hq) as [E _]. rewrite E.
+  unfold pending_msgs. rewrite Hqu, Hw. cbn [map app process marks fold_left].
+  subst D. destruct (handle_front s x) as [s1 o1]. cbn [fst snd]. now rewrite app_nil_r.
+Qed.
+
+Lemma enqueue_tagged_room s x tag : queue s = [] -> waiting s = [] -> (0 < qcap s)%nat ->
+  enqueue_tagged s x tag = frame s [x] [] (marks [tag] (unsubw s)).
+Proof.
+  intros Hq Hw Hc. unfold enqueue_tagged. rewrite Hq, Hw. cbn [length app].
+  apply Nat.ltb_lt in Hc. rewrite Hc. cbn [andb]. destruct tag; reflexivity.
+Qed.
+
+Lemma gone_wire s raw : gone (fst (wire s raw)) = gone s. Proof. unfold wire. destr_all; reflexivity. Qed.
+Lemma gone_drop_sink s h : gone (drop_sink s h) = gone s. Proof. unfold drop_sink. destr_all; reflexivity. Qed.
+Lemma gone_do_unsubscribe s sid : gone (fst (do_unsubscribe s sid)) = gone s.
+Proof.
+  unfold do_unsubscribe. destruct (alookup _ _ _); [|reflexivity].
+  destruct (req_lookup _ _) as [[| | u ch um|]|]; try reflexivity.
+  rewrite gone_wire. cbn [gone upd_unacked]. now rewrite gone_drop_sink.
+Qed.
+
+(* the common core: a state whose inbox holds exactly MSubClosed sid for an active subscription *)
+Lemma settle_sub_closed s sid rid u ch um :
+  ungated s -> (0 < qcap s)%nat -> queue s = [MSubClosed sid] -> waiting s = [] ->
+  alookup subid_eqb sid (subs (m s)) = Some rid -> req_lookup rid (m s) = Some (KSub u ch um) ->
+  let D := frame (fst (do_unsubscribe s sid)) [] [] (unsubw s) in
+  settle s = (fst (finish_unsubs D), OWire (unsub_request s u um sid) :: snd (finish_unsubs D)) /\
+  wires_of (snd (settle s)) = [unsub_request s u um sid] /\
+  alookup subid_eqb sid (subs (m (fst (settle s)))) = None /\
+  chan_of D ch = option_map chan_drop_tx (chan_of s ch) /\ gone D = gone s.
+Proof.
+  intros Hu Hq Hqu Hw H1 H2 D.
+  pose proof (settle_one s (MSubClosed sid) Hu Hq Hqu Hw) as E. cbn [handle_front] in E. fold D in E.
+  destruct (do_unsubscribe_spec s sid rid u ch um H1 H2) as [Ho [Hs [_ [Hc _]]]].
+  destruct Hu as [_ [_ [_ [Hsf _]]]]. rewrite Hsf in Ho. rewrite Ho in E. cbn [app] in E.
+  split; [exact E|]. rewrite E. cbn [fst snd]. split; [|split; [|split]].
+  - cbn [wires_of flat_map]. fold (wires_of (snd (finish_unsubs D))). now rewrite finish_unsubs_wires.
+  - destruct (finish_unsubs_shape D) as [cs [u' ->]]. exact Hs.
+  - exact Hc.
+  - unfold D. cbn [gone frame upd_unsubw upd_queue]. apply gone_do_unsubscribe.
+Qed.
+
+Lemma try_enqueue_room s x : queue s = [] -> waiting s = [] -> (0 < qcap s)%nat ->
+  try_enqueue s x = frame s [x] [] (unsubw s).
+Proof.
+  intros Hq Hw Hc. unfold try_enqueue. rewrite Hq, Hw. cbn [length app].
+  apply Nat.ltb_lt in Hc. rewrite Hc. reflexivity.
+Qed.
+
+Lemma sub_chan_of_lookups s sid rid u ch um :
+  alookup subid_eqb sid (subs (m s)) = Some rid -> req_lookup rid (m s) = Some (KSub u ch um) -> sub_chan s sid = Some ch.
+Proof. intros H1 H2. unfold sub_chan. now rewrite H1, H2. Qed.
+
+Lemma sub_deliver_refused_room s sid p ch c :
+  sub_chan s sid = Some ch -> chan_of s ch = Some c -> snd (chan_send c p) <> SentOk ->
+  queue s = [] -> waiting s = [] -> (0 < qcap s)%nat ->
+  sub_deliver s sid p = frame (set_chan s ch (fst (chan_send c p))) [MSubClosed sid] [] (unsubw s).
+Proof.
+  intros Hs Hc Hr Hq Hw Hcap. rewrite (sub_deliver_spec _ _ _ _ _ Hs Hc).
+  destruct (chan_send c p) as [c' r]. cbn [fst snd] in *.
+  destruct r; [contradiction| |]; unfold forward, enqueue;
+    rewrite (enqueue_tagged_room (set_chan s ch c') (MSubClosed sid) None Hq Hw Hcap); reflexivity.
+Qed.
+
+(* C05_lag_unsubscribes_exactly_once *)
+Theorem refused_push_unsubscribes_once : forall s raw me sid p rid u ch um c,
+  ungated s -> (0 < qcap s)%nat -> queue s = [] -> waiting s = [] ->
+  classify_frame raw = FSingle (ISubNotif me sid p) ->
+  alookup subid_eqb sid (subs (m s)) = Some rid -> req_lookup rid (m s) = Some (KSub u ch um) ->
+  chan_of s ch = Some c -> snd (chan_send c p) <> SentOk ->
+  let r := fst (step s (Back raw)) in
+  wires_of (snd r) = [unsub_request s u um sid] /\
+  (unsubw s = [] -> snd r = [OWire (unsub_request s u um sid)]) /\
+  alookup subid_eqb sid (subs (m (fst r))) = None /\
+  queue (fst r) = [] /\ waiting (fst r) = [].
+Proof.
+  intros s raw me sid p rid u ch um c Hu Hq Hqu Hw Hcls H1 H2 Hc Hr r. subst r.
+  pose proof (sub_chan_of_lookups _ _ _ _ _ _ H1 H2) as Hs.
+  unfold step, apply. destruct Hu as [Hg [Hd [Hdy [Hsf Hb]]]]. rewrite Hd, Hdy, Hcls.
+  cbn [handle_back handle_elem_single].
+  rewrite (sub_deliver_refused_room s sid p ch c Hs Hc Hr Hqu Hw Hq).
+  set (s1 := frame _ _ _ _).
+  assert (Hu1 : ungated s1) by (unfold ungated; auto).
+  assert (Hq1 : (0 < qcap s1)%nat) by exact Hq.
+  destruct (settle_sub_closed s1 sid rid u ch um Hu1 Hq1 eq_refl eq_refl H1 H2) as [E [Hwi [Hsu _]]].
+  destruct (settle_quiescent s1 Hu1 Hq1) as [Hq0 [Hw0 _]].
+  destruct (settle s1) as [s2 o2]. cbn [fst snd app] in *.
+  split; [exact Hwi|]. split; [|auto].
+  intro Hun. apply (f_equal snd) in E. cbn [snd] in E. rewrite E, finish_unsubs_nil; [reflexivity|exact Hun].
+Qed.
+
+Lemma in_mark_admitted h sh l : In (h, sh, true) (mark_admitted h (l ++ [(h, sh, false)])).
+Proof.
+  unfold mark_admitted. apply in_map_iff. exists (h, sh, false). rewrite N.eqb_refl. split; [reflexivity|].
+  apply in_or_app. right. now left.
+Qed.
+
+(* C05_explicit_unsubscribe_completes *)
+Theorem explicit_unsubscribe_completes : forall s h sh sid rid u um,
+  ungated s -> (0 < qcap s)%nat -> queue s = [] -> waiting s = [] ->
+  alookup N.eqb sh (subkind s) = Some (inl sid) ->
+  alookup subid_eqb sid (subs (m s)) = Some rid -> req_lookup rid (m s) = Some (KSub u sh um) ->
+  alive s h = true ->
+  let r := fst (step s (FUnsub h sh)) in
+  wires_of (snd r) = [unsub_request s u um sid] /\
+  In (OComplete h CDone) (snd r) /\
+  (unsubw s = [] -> snd r = [OWire (unsub_request s u um sid); OComplete h CDone]) /\
+  alookup subid_eqb sid (subs (m (fst r))) = None /\
+  queue (fst r) = [] /\ waiting (fst r) = [].
+Proof.
+  intros s h sh sid rid u um Hu Hq Hqu Hw Hk H1 H2 Hal r. subst r.
+  unfold step, apply. destruct Hu as [Hg [Hd [Hdy [Hsf Hb]]]]. rewrite Hd. unfold close_msg_of. rewrite Hk.
+  set (s0 := upd_unsubw _ _).
+  rewrite (enqueue_tagged_room s0 (MSubClosed sid) (Some h) Hqu Hw Hq).
+  set (s1 := frame _ _ _ _).
+  assert (Hu1 : ungated s1) by (unfold ungated; auto).
+  assert (Hq1 : (0 < qcap s1)%nat) by exact Hq.
+  destruct (settle_sub_closed s1 sid rid u sh um Hu1 Hq1 eq_refl eq_refl H1 H2) as [E [Hwi [Hsu [Hch Hgo]]]].
+  destruct (settle_quiescent s1 Hu1 Hq1) as [Hq0 [Hw0 _]].
+  set (D := frame (fst (do_unsubscribe s1 sid)) [] [] (unsubw s1)) in *.
+  assert (Hdone : unsub_done D (h, sh, true) = true).
+  { unfold unsub_done. rewrite Hch. destruct (chan_of s1 sh); reflexivity. }
+  assert (Hcomp : complete D h CDone = [OComplete h CDone]).
+  { unfold complete, alive. rewrite Hgo. change (gone s1) with (gone s). unfold alive in Hal. now rewrite Hal. }
+  destruct (settle s1) as [s2 o2]. cbn [fst snd app] in *. apply (f_equal snd) in E. cbn [snd] in E. subst o2.
+  split; [exact Hwi|]. split; [|split; [|auto]].
+  - right. unfold finish_unsubs. cbn [snd]. apply in_flat_map. exists (h, sh, true). split.
+    + apply filter_In. split; [|exact Hdone]. apply in_mark_admitted.
+    + rewrite Hcomp. now left.
+  - intro Hun. f_equal. unfold finish_unsubs. cbn [snd].
+    assert (HU : unsubw D = [(h, sh, true)]).
+    { cbn. rewrite Hun. cbn. now rewrite N.eqb_refl. }
+    rewrite HU. cbn [filter]. rewrite Hdone. cbn [flat_map]. rewrite Hcomp. reflexivity.
+Qed.
+
+(* C05_drop_unsubscribes_exactly_once *)
+Theorem drop_unsubscribes_once : forall s sh sid c rid u ch um,
+  ungated s -> (0 < qcap s)%nat -> queue s = [] -> waiting s = [] ->
+  alookup N.eqb sh (subkind s) = Some (inl sid) -> chan_of s sh = Some c ->
+  alookup subid_eqb sid (subs (m s)) = Some rid -> req_lookup rid (m s) = Some (KSub u ch um) ->
+  let r := fst (step s (FDrop sh)) in
+  wires_of (snd r) = [unsub_request s u um sid] /\
+  (unsubw s = [] -> snd r = [OWire (unsub_request s u um sid)]) /\
+  alookup subid_eqb sid (subs (m (fst r))) = None /\
+  queue (fst r) = [] /\ waiting (fst r) = [].
+Proof.
+  intros s sh sid c rid u ch um Hu Hq Hqu Hw Hk Hc H1 H2 r. subst r.
+  unfold step, apply. destruct Hu as [Hg [Hd [Hdy [Hsf Hb]]]]. rewrite Hd. unfold close_msg_of. rewrite Hk, Hc.
+  set (s0 := set_chan _ _ _).
+  rewrite (try_enqueue_room s0 (MSubClosed sid) Hqu Hw Hq).
+  set (s1 := frame _ _ _ _).
+  assert (Hu1 : ungated s1) by (unfold ungated; auto).
+  assert (Hq1 : (0 < qcap s1)%nat) by exact Hq.
+  destruct (settle_sub_closed s1 sid rid u ch um Hu1 Hq1 eq_refl eq_refl H1 H2) as [E [Hwi [Hsu _]]].
+  destruct (settle_quiescent s1 Hu1 Hq1) as [Hq0 [Hw0 _]].
+  destruct (settle s1) as [s2 o2]. cbn [fst snd app] in *.
+  split; [exact Hwi|]. split; [|auto].
+  intro Hun. apply (f_equal snd) in E. cbn [snd] in E. rewrite E, finish_unsubs_nil; [reflexivity|exact Hun].
+Qed.
